@@ -24,10 +24,13 @@ package flate
 // ---------------------------------------------------------------------------
 
 // rdOK: representation invariant of the Reader between public operations.
-//@ pure rdBasic(f *decompressor) bool = 0 <= f.readPos && f.readPos <= f.writePos && f.writePos <= 65797 && f.rBuf != nil && brOK(f.rBuf) && 0 <= f.state.bitsLen && f.state.bitsLen <= 64 && 0 <= f.peekSize
-//@ pure inputOK(f *decompressor) bool = (f.state.input != nil ==> len(f.state.input) + int(f.state.bitsLen/8) <= f.peekSize && f.peekSize <= f.rBuf.buffered) && (f.state.input == nil ==> int(f.state.bitsLen/8) <= f.rBuf.buffered)
+// inflOK: decoder state between calls of decomperss: the phase is one of the six, a stored block in progress is byte
+// aligned, header staging is empty outside header parsing, and no carried-over output is pending.
+//@ pure inflOK(s *inflate) bool = 0 <= s.phase && s.phase <= 5 && stBase(s) && 0 <= s.bitsLen && (s.phase == phaseLitBlock ==> s.bitsLen % 8 == 0 && 0 <= s.litBlockLength && s.litBlockLength <= 65535) && (s.phase != phaseDecodingHeader ==> s.headerBuffered == 0) && s.writeOverflowLen == 0 && s.copyOverflowLength == 0 && s.bfinal <= 1
+//@ pure rdBasic(f *decompressor) bool = 0 <= f.readPos && f.readPos <= f.writePos && f.writePos <= 65797 && f.rBuf != nil && brOK(f.rBuf) && 0 <= f.peekSize
+//@ pure inputOK(f *decompressor) bool = (f.state.input != nil ==> remBits(&f.state) <= 8*f.peekSize + 7 && f.peekSize <= f.rBuf.buffered) && (f.state.input == nil ==> int(f.state.bitsLen/8) <= f.rBuf.buffered)
 //@ pure errClass(e error) bool = e == nil || e == io.EOF || e == io.ErrUnexpectedEOF || iscorrupt(e) || (e == peekErr && e != bufio.ErrBufferFull)
-//@ pure rdOK(f *decompressor) bool = rdBasic(f) && (f.err == nil ==> inputOK(f))
+//@ pure rdOK(f *decompressor) bool = rdBasic(f) && (f.err == nil ==> inflOK(&f.state) && inputOK(f))
 //@ pure rdFresh(f *decompressor) bool = rdOK(f) && f.readPos == 0 && f.writePos == 0 && f.err == nil && !f.eof && f.needInput && f.peekSize == 0 && inflFresh(&f.state)
 
 //@ func NewReader
@@ -44,21 +47,44 @@ package flate
 //@   ensures[C13 fresh] rdFresh(r) && err == nil
 //@   ensures[C05 C13 src-direct] typeis(under, *bufio.Reader) ==> r.rBuf == under.(*bufio.Reader)
 
+//@ func decodeHuffman
+//@   trusted "not yet verified: Huffman block decoding loop (decodeHuffmanLargeLoop) and, at acceleration level 3+, the assembly decoder"
+//@   requires stBase(state) && state.bitsLen >= 0 && state.phase == phaseHeaderDecoded && 0 <= written && written <= len(output) && len(output) == 65536 && state.input != nil && state.bfinal <= 1
+//@   modifies state.bits, state.bitsLen, state.input, state.phase, state.writeOverflowLits, state.writeOverflowLen, state.copyOverflowLength, state.copyOverflowDistance, output[*]
+//@   ensures err == nil || err == errEndInput || err == errOutputOverflow || err == errInvalidSymbol || err == errInvalidLookBack || err == errInvalidBlock
+//@   ensures written <= w && w <= len(output)
+//@   ensures err == nil ==> (state.bfinal == 1 ==> state.phase == phaseStreamEnd) && (state.bfinal != 1 ==> state.phase == phaseNewBlock)
+//@   ensures err != nil ==> state.phase == phaseHeaderDecoded || (err == errOutputOverflow && ((state.bfinal == 1 && state.phase == phaseStreamEnd) || (state.bfinal != 1 && state.phase == phaseNewBlock)))
+//@   ensures 0 <= state.writeOverflowLen && state.writeOverflowLen <= 3 && 0 <= state.copyOverflowLength && state.copyOverflowLength <= 257 && (state.copyOverflowLength > 0 ==> 1 <= state.copyOverflowDistance && int(state.copyOverflowDistance) <= w && w == len(output))
+//@   ensures err != errOutputOverflow ==> state.writeOverflowLen == 0 && state.copyOverflowLength == 0
+//@   ensures err == errEndInput ==> len(state.input) == 0
+//@   ensures 0 <= state.bitsLen && state.bitsLen <= 64 && (isInvalid(err) || stBase(state)) && len(state.input) <= old(len(state.input)) && sameobj(state.input, old(state.input)) && state.input != nil
+//@   ensures remBits(state) <= old(remBits(state))
+
+//@ func byteCopy
+//@   trusted "not yet verified (the periodicity argument of the doubling overlapped copy needs modular reasoning the solvers do not finish): LZ77 copy of length bytes from distance dist"
+//@   requires 1 <= dist && dist <= curr && 0 <= length && curr <= len(hist) && length <= len(hist) && curr + length <= len(hist) && len(hist) <= 1073741824
+//@   modifies hist[*]
+//@   ensures[C02 lz-copy] forall k :: 0 <= k && k < length ==> hist[curr+k] == hist[curr-dist+k]
+//@   ensures forall k :: 0 <= k && k < curr ==> hist[k] == old(hist[k])
+
 //@ func (*decompressor).decomperss
-//@   trusted "not yet verified: block decoding below this call (readHeader, decodeLiteralBlock, decodeHuffman, table builders)"
-//@   requires rdOK(f) && f.state.input != nil && f.writePos == f.readPos && f.readPos < 65536
+//@   requires rdBasic(f) && inflOK(&f.state) && f.state.input != nil && f.writePos == f.readPos && f.readPos < 65536 && f.state.phase != phaseFinish
 //@   modifies f.state, f.writePos, f.historyBuffer
-//@   ensures f.readPos <= f.writePos && f.writePos <= 65797
-//@   ensures 0 <= f.state.bitsLen && f.state.bitsLen <= 64 && f.state.input != nil && len(f.state.input) <= old(len(f.state.input)) && 8*len(f.state.input) + int(f.state.bitsLen) <= 8*old(len(f.state.input)) + old(int(f.state.bitsLen))
-//@   ensures err == nil || isSentinel(err)
-//@   ensures err == nil ==> f.state.phase == phaseStreamEnd
-//@   ensures err == errEndInput ==> len(f.state.input) == 0
+//@   ensures[C03 C04 pos] f.readPos <= f.writePos && f.writePos <= 65797 && same(f.readPos)
+//@   ensures[C03 classify] err == nil || isSentinel(err)
+//@   ensures[C03 eof-only-final] err == nil ==> f.state.phase == phaseStreamEnd
+//@   ensures[C04 end-input-drained] err == errEndInput ==> len(f.state.input) == 0
 //@   ensures f.state.phase != phaseFinish
+//@   ensures[C03 C04 state-inv] isInvalid(err) || inflOK(&f.state)
+//@   ensures[C03 discard-bound] -8 < f.state.bitsLen && f.state.bitsLen <= 64
+//@   ensures f.state.input != nil && len(f.state.input) <= old(len(f.state.input)) && remBits(&f.state) <= old(remBits(&f.state))
+//@   loop 1 invariant 0 <= idx && idx <= 65536 && idx >= f.writePos && same(f.writePos) && same(f.readPos) && f.state.input != nil && len(f.state.input) <= old(len(f.state.input)) && sameobj(f.state.input, old(f.state.input)) && remBits(&f.state) <= old(remBits(&f.state)) && err == nil && inflOK(&f.state) && f.state.phase != phaseFinish && len(output) == 65536 && sameobj(output, f.historyBuffer[:])
 
 //@ func (*decompressor).step
 //@   requires rdOK(f) && f.writePos == f.readPos && f.err == nil
 //@   modifies f.state, f.writePos, f.readPos, f.historyBuffer, f.peekSize, f.eof, f.needInput, *f.rBuf, extReads, peekErr
-//@   ensures[C03 C04 inv] rdBasic(f) && f.readPos <= f.writePos && (err == nil ==> inputOK(f))
+//@   ensures[C03 C04 inv] rdBasic(f) && f.readPos <= f.writePos && (err == nil ==> inflOK(&f.state) && inputOK(f))
 //@   ensures[C11 no-demand] !old(f.needInput) && old(f.state.input) == nil && int(old(f.state.bitsLen)/8) <= old(f.rBuf.buffered) ==> extReads == old(extReads)
 //@   ensures[C03 classify] errClass(err)
 //@   ensures[C03 eof-only-final] err == io.EOF ==> f.state.phase == phaseFinish && f.writePos == f.readPos
@@ -74,7 +100,7 @@ package flate
 //@   ensures[C03 C15 sticky] old(f.err) != nil && old(f.writePos) == old(f.readPos) ==> n == 0 && err == old(f.err) && f.err == old(f.err) && extReads == old(extReads)
 //@   ensures[C03 C15 err-recorded] err != nil ==> f.err == err && f.writePos == f.readPos
 //@   ensures[C03 classify] errClass(err) || err == old(f.err)
-//@   loop 1 invariant rdBasic(f) && (f.err == nil ==> inputOK(f)) && n == 0
+//@   loop 1 invariant rdBasic(f) && (f.err == nil ==> inflOK(&f.state) && inputOK(f)) && n == 0
 //@   loop 1 invariant f.err == nil || f.err == old(f.err) || (errClass(f.err) && f.writePos > f.readPos)
 //@   loop 1 invariant old(f.err) != nil && old(f.writePos) == old(f.readPos) ==> same(f.err) && same(f.writePos) && same(f.readPos) && extReads == old(extReads)
 //@   loop 1 invariant old(f.writePos) > old(f.readPos) ==> same(f.writePos) && same(f.readPos) && same(f.historyBuffer) && extReads == old(extReads) && same(f.err)
@@ -101,8 +127,9 @@ package flate
 //@   modifies state.bits, state.bitsLen, state.input, state.litBlockLength, state.phase
 //@   ensures[C03 classify] result == nil || result == errEndInput || result == errInvalidBlock
 //@   ensures[C02 C05 whole-bytes] result == nil ==> state.phase == phaseLitBlock && state.bitsLen % 8 == 0 && 0 <= state.bitsLen && state.bitsLen <= 32 && 0 <= state.litBlockLength && state.litBlockLength <= 65535 && (state.bitsLen == 64 || state.bits >> uint64(state.bitsLen) == 0)
-//@   ensures stBase(state) && len(state.input) <= old(len(state.input)) && sameobj(state.input, old(state.input)) && (state.input == nil) == (old(state.input) == nil)
+//@   ensures stBase(state) && remBits(state) <= old(remBits(state)) && len(state.input) <= old(len(state.input)) && sameobj(state.input, old(state.input)) && (state.input == nil) == (old(state.input) == nil)
 //@   ensures result != nil ==> same(state.phase)
+//@   ensures state.bitsLen >= 0
 //@   ensures@2[C03 len-check] len != (^nlen & 65535)
 //@   ensures@3[C03 len-check] len == (^nlen & 65535) && state.litBlockLength == int(len)
 
@@ -116,7 +143,7 @@ package flate
 //@   requires stBase(state)
 //@   modifies state.bits, state.bitsLen, state.input, *ctx
 //@   ensures err == nil || err == errEndInput || err == errInvalidBlock
-//@   ensures stBase(state) && len(state.input) <= old(len(state.input)) && sameobj(state.input, old(state.input)) && (state.input == nil) == (old(state.input) == nil)
+//@   ensures stBase(state) && state.bitsLen > -8 && remBits(state) <= old(remBits(state)) && len(state.input) <= old(len(state.input)) && sameobj(state.input, old(state.input)) && (state.input == nil) == (old(state.input) == nil)
 
 //@ func (*inflate).codeLenCodes
 //@   trusted "not yet verified: code length code lengths (HCLEN) and their decoding table"
@@ -124,7 +151,7 @@ package flate
 //@   requires stBase(state) && state.bitsLen >= 0
 //@   modifies state.bits, state.bitsLen, state.input, state.dynHdr.clcTable
 //@   ensures result == nil || result == errEndInput || result == errInvalidBlock
-//@   ensures stBase(state) && len(state.input) <= old(len(state.input)) && sameobj(state.input, old(state.input)) && (state.input == nil) == (old(state.input) == nil)
+//@   ensures stBase(state) && (result != errEndInput ==> state.bitsLen >= 0) && remBits(state) <= old(remBits(state)) && len(state.input) <= old(len(state.input)) && sameobj(state.input, old(state.input)) && (state.input == nil) == (old(state.input) == nil)
 
 //@ func setCodes
 //@   trusted "not yet verified: canonical code assignment with over-subscription check"
@@ -151,7 +178,8 @@ package flate
 //@   ensures[C03 classify] result == nil || result == errEndInput || result == errInvalidBlock
 //@   ensures[C02 btype] result == nil ==> state.phase == phaseHeaderDecoded && state.bitsLen >= 0
 //@   ensures result != nil ==> same(state.phase)
-//@   ensures stBase(state) && len(state.input) <= old(len(state.input)) && sameobj(state.input, old(state.input)) && (state.input == nil) == (old(state.input) == nil)
+//@   ensures result == errInvalidBlock ==> state.bitsLen > -8
+//@   ensures stBase(state) && remBits(state) <= old(remBits(state)) && len(state.input) <= old(len(state.input)) && sameobj(state.input, old(state.input)) && (state.input == nil) == (old(state.input) == nil)
 
 //@ func (*inflate).tryDecodeHeader
 //@   requires stBase(state) && state.bitsLen >= 0
@@ -160,9 +188,10 @@ package flate
 //@   ensures[C02 C03 btype] err == nil ==> (state.phase == phaseLitBlock || state.phase == phaseHeaderDecoded) && state.bitsLen >= 0
 //@   ensures err == nil && state.phase == phaseLitBlock ==> state.bitsLen % 8 == 0 && 0 <= state.bitsLen && state.bitsLen <= 32 && 0 <= state.litBlockLength && state.litBlockLength <= 65535
 //@   ensures err != nil ==> same(state.phase)
-//@   ensures stBase(state) && len(state.input) <= old(len(state.input)) && sameobj(state.input, old(state.input)) && (state.input == nil) == (old(state.input) == nil) && state.bfinal <= 1
+//@   ensures err == errInvalidBlock ==> state.bitsLen > -8
+//@   ensures stBase(state) && remBits(state) <= old(remBits(state)) && len(state.input) <= old(len(state.input)) && sameobj(state.input, old(state.input)) && (state.input == nil) == (old(state.input) == nil) && state.bfinal <= 1
 //@   ensures@5[C03 btype] btype == 3
-//@   assumes old(state.phase) == phaseDecodingHeader && old(int(state.headerBuffered)) <= old(len(state.input)) ==> old(len(state.input)) - len(state.input) >= old(int(state.headerBuffered))
+//@   assumes old(state.phase) == phaseDecodingHeader && old(int(state.headerBuffered)) <= old(len(state.input)) ==> old(len(state.input)) - len(state.input) >= old(int(state.headerBuffered)) && old(remBits(state)) - remBits(state) >= 8*old(int(state.headerBuffered))
 
 //@ func (*inflate).readHeader
 //@   requires stBase(state) && state.bitsLen >= 0 && (state.phase == phaseNewBlock || state.phase == phaseDecodingHeader) && (state.phase == phaseNewBlock ==> state.headerBuffered == 0) && state.input != nil
@@ -172,7 +201,8 @@ package flate
 //@   ensures err == nil && state.phase == phaseLitBlock ==> state.bitsLen % 8 == 0 && 0 <= state.bitsLen && state.bitsLen <= 32 && 0 <= state.litBlockLength && state.litBlockLength <= 65535
 //@   ensures[C04 stage] err == errEndInput ==> state.bits == old(state.bits) && state.bitsLen == old(state.bitsLen) && len(state.input) == 0 && state.phase == phaseDecodingHeader && int(state.headerBuffered) == old(int(state.headerBuffered)) + (old(len(state.input)) < 328 - old(int(state.headerBuffered)) ? old(len(state.input)) : 328 - old(int(state.headerBuffered)))
 //@   ensures[C04 stage-reset] err != errEndInput ==> state.headerBuffered == 0
-//@   ensures err == errInvalidBlock ==> same(state.phase)
+//@   ensures err == errInvalidBlock ==> same(state.phase) && state.bitsLen > -8 && state.bitsLen <= 64
+//@   ensures[C04 C05 accounting] remBits(state) <= old(remBits(state))
 //@   ensures (err != errInvalidBlock ==> stBase(state) && state.bitsLen >= 0) && len(state.input) <= old(len(state.input)) && sameobj(state.input, old(state.input)) && state.input != nil && state.bfinal <= 1
 
 //@ func (*inflate).decodeLiteralBlock
